@@ -28,7 +28,11 @@ use lightning_signer::bitcoin::transaction::Version;
 use lightning_signer::bitcoin::{Amount, Network, OutPoint, ScriptBuf, Sequence, Transaction, TxIn, TxOut, Txid, Witness};
 use lightning_signer::channel::{Channel, ChannelId, ChannelSetup, CommitmentType};
 use lightning_signer::lightning::types::payment::PaymentHash;
-use lightning_signer::node::Node;
+use lightning_signer::node::{Node, NodeServices};
+use lightning_signer::persist::Persist;
+use lightning_signer::util::clock::StandardClock;
+use vls_persist::kvv::memory::MemoryKVVStore;
+use vls_persist::kvv::{JsonFormat, KVVPersister};
 use lightning_signer::policy::filter::{FilterResult, FilterRule, PolicyFilter};
 use lightning_signer::policy::simple_validator::{make_default_simple_policy, SimpleValidatorFactory};
 use lightning_signer::tx::tx::HTLCInfo2;
@@ -130,22 +134,35 @@ fn make_setup(sd: &SetupD) -> ChannelSetup {
 struct Live {
     node: Arc<Node>,
     id: ChannelId,
+    persister: Arc<dyn Persist>,
 }
 
-/// A fresh node + channel in the state "about to sign counterparty commitment `commit_num`".
-fn fresh(sd: &SetupD, c: &ContentD) -> Result<Live, String> {
-    let node = init_node(TEST_NODE_CONFIG, TEST_SEED[1]);
-    node.set_validator_factory(Arc::new(SimpleValidatorFactory::new_with_policy(policy_for(sd.mode))));
+fn node_seed() -> [u8; 32] {
+    let mut seed = [0u8; 32];
+    seed.copy_from_slice(&hex::decode(TEST_SEED[1]).unwrap());
+    seed
+}
+
+fn services(persister: Arc<dyn Persist>, mode: u8) -> NodeServices {
+    NodeServices {
+        validator_factory: Arc::new(SimpleValidatorFactory::new_with_policy(policy_for(mode))),
+        starting_time_factory: make_genesis_starting_time_factory(Network::Testnet),
+        persister,
+        clock: Arc::new(StandardClock()),
+        trusted_oracle_pubkeys: vec![],
+    }
+}
+
+/// A fresh node with a real persister (KVVPersister over a memory store) and a ready channel.
+fn fresh_base(sd: &SetupD, c: &ContentD) -> Result<Live, String> {
+    let persister: Arc<dyn Persist> = Arc::new(KVVPersister(MemoryKVVStore::new([7u8; 16]), JsonFormat));
+    let node = Arc::new(Node::new(TEST_NODE_CONFIG, &node_seed(), vec![], services(persister.clone(), sd.mode)));
+    persister.new_node(&node.get_id(), &TEST_NODE_CONFIG, &*node.get_state()).map_err(|e| format!("new_node: {:?}", e))?;
+    persister.new_tracker(&node.get_id(), &node.get_tracker()).map_err(|e| format!("new_tracker: {:?}", e))?;
+    node.add_allowlist(&[]).map_err(|e| format!("allowlist: {}", e.message()))?;
     let (id, _) = node.new_channel(1, &[2u8; 33], &node).map_err(|e| format!("new_channel: {:?}", e))?;
     node.setup_channel(id.clone(), None, make_setup(sd), &DerivationPath::master())
         .map_err(|e| format!("setup_channel: {}", e.message()))?;
-    let cn = c.commit_num;
-    node.with_channel(&id, |chan| {
-        chan.enforcement_state.set_next_counterparty_commit_num_for_testing(cn, make_test_pubkey(0x10));
-        chan.enforcement_state.set_next_counterparty_revoke_num_for_testing(cn.saturating_sub(1));
-        Ok(())
-    })
-    .map_err(|e| format!("with_channel: {}", e.message()))?;
     // outgoing payments (HTLCs the counterparty receives) need an approved invoice / keysend
     let mut per_hash: BTreeMap<i64, u64> = BTreeMap::new();
     for h in c.htlcs.iter().filter(|h| !h.0) {
@@ -155,7 +172,39 @@ fn fresh(sd: &SetupD, c: &ContentD) -> Result<Live, String> {
     for (h, msat) in per_hash {
         let _ = node.add_keysend(make_test_pubkey(1), PaymentHash(payment_hash_bytes(h)), msat);
     }
-    Ok(Live { node, id })
+    Ok(Live { node, id, persister })
+}
+
+/// put the channel in the state "about to sign counterparty commitment `commit_num`" (in-memory test
+/// setters; a channel that already signed this commitment — a retry after restart — is left alone)
+fn arm(live: &Live, c: &ContentD) -> Result<(), String> {
+    let cn = c.commit_num;
+    live.node.with_channel(&live.id, |chan| {
+        if chan.enforcement_state.next_counterparty_commit_num != cn.wrapping_add(1) {
+            chan.enforcement_state.set_next_counterparty_commit_num_for_testing(cn, make_test_pubkey(0x10));
+            chan.enforcement_state.set_next_counterparty_revoke_num_for_testing(cn.saturating_sub(1));
+        }
+        Ok(())
+    })
+    .map_err(|e| format!("with_channel: {}", e.message()))
+}
+
+fn fresh(sd: &SetupD, c: &ContentD) -> Result<Live, String> {
+    let live = fresh_base(sd, c)?;
+    arm(&live, c)?;
+    Ok(live)
+}
+
+/// Restart: drop the node and rebuild it from what the persister holds (`Node::restore_node`).
+fn restore(live: Live, sd: &SetupD, c: &ContentD) -> Result<Live, String> {
+    let Live { node, id, persister } = live;
+    drop(node);
+    let (node_id, entry) = persister.get_nodes().map_err(|e| format!("get_nodes: {:?}", e))?.into_iter().next().ok_or("no node persisted")?;
+    let node = Node::restore_node(&node_id, entry, &node_seed(), services(persister.clone(), sd.mode))
+        .map_err(|e| format!("restore_node: {}", e.message()))?;
+    let live = Live { node, id, persister };
+    arm(&live, c)?;
+    Ok(live)
 }
 
 fn key_tab(chan: &Channel, point: &PublicKey) -> KeyTab {
@@ -498,12 +547,20 @@ struct Ctx {
     base: Option<Base>,
     live: Option<Live>,
     p2: Option<Option<Signature>>, // Some(Some(sig)) accepted, Some(None) refused
+    /// the node on which phase 2 was accepted (kept so that a `restart` can restore *that* node)
+    kept: Option<Live>,
+    /// the next channel to be built goes through persist + restore before it signs
+    restart_next: bool,
+    /// the node that accepted phase 2, restored after a `restart`: used by `p1retry` only
+    retry: Option<Live>,
 }
 
 impl Ctx {
     fn live(&mut self) -> Result<&Live, String> {
         if self.live.is_none() {
-            let l = fresh(self.sd.as_ref().unwrap(), self.c.as_ref().unwrap())?;
+            let (sd, c) = (self.sd.as_ref().unwrap(), self.c.as_ref().unwrap());
+            let l = if self.restart_next { restore(fresh_base(sd, c)?, sd, c)? } else { fresh(sd, c)? };
+            self.restart_next = false;
             self.live = Some(l);
         }
         Ok(self.live.as_ref().unwrap())
@@ -556,6 +613,7 @@ impl C04 {
                 format!("accept {} {}", cs, bc)
             }
             P1Res::Err(m) => {
+                if std::env::var("C04_DEBUG").is_ok() { eprintln!("p1 reject [{}]: {}", label, m); }
                 co.tags.insert(format!("p1:reject:{}:{}", classify_err(&m), label));
                 if unmutated {
                     if let Some(Some(_)) = p2 {
@@ -583,7 +641,9 @@ impl Group for C04 {
     fn property(&self) -> &'static str { "C04" }
     fn model(&self) -> Option<&'static str> { Some("bolt3") }
     fn rule(&self) -> &'static str {
-        "random channel setups (Legacy/StaticRemoteKey/Anchors/AnchorsZeroFeeHtlc, inbound/outbound, delays incl. 2016/2017, funding \
+        "restarts through a real persister (KVVPersister<MemoryKVVStore>) + Node::restore_node before the first signing request, \
+         between phase 2 and phase 1 (the restored node re-signs the same commitment) and between mutations; \
+         random channel setups (Legacy/StaticRemoteKey/Anchors/AnchorsZeroFeeHtlc, inbound/outbound, delays incl. 2016/2017, funding \
          outpoint incl. vout>=65536, policy default/lenient/policy-commitment demoted) and counterparty commitment contents (0-30 HTLCs \
          with duplicate hashes/values/cltv, values around the feerate- and type-dependent dust thresholds, one balance 0 or near 330, \
          commitment numbers up to 2^48); per content the real LDK transaction is rendered and compared with the Lean canon, real phase 2 \
@@ -594,7 +654,7 @@ impl Group for C04 {
     }
     fn budget(&self, tier: Tier) -> usize { if tier == Tier::Quick { 500 } else { 6000 } }
     fn model_line(&self, op: &str) -> Option<String> {
-        if op.starts_with("impl ") || op.starts_with("p1raw ") { None } else { Some(op.to_string()) }
+        if op.starts_with("impl ") || op.starts_with("p1raw ") || op == "p1retry" { None } else { Some(op.to_string()) }
     }
     fn corpus(&self) -> Vec<Vec<String>> {
         // the repository's own scenario (sign_commitment_tx_with_mutators_setup), static and anchors
@@ -614,31 +674,34 @@ impl Group for C04 {
                 return ops;
             }
         }
-        vec!["impl 0 10".into()]
+        vec!["setup s 1 6 7 2 0 3000000 0 1 0 10".into()]
     }
     fn exec_case(&self, ops: &[String]) -> CaseOut {
         let mut co = CaseOut::default();
-        let mut cx = Ctx { sd: None, c: None, base: None, live: None, p2: None };
+        let mut cx = Ctx { sd: None, c: None, base: None, live: None, p2: None, kept: None, restart_next: false, retry: None };
         let mut mode = 0u8;
+        let mut saw_keys = false;
         let mut point = 10u8;
         let (mut saw_accept_htlc, mut saw_reject_mut) = (false, false);
         for (i, op) in ops.iter().enumerate() {
             let t: Vec<&str> = op.split_whitespace().collect();
             let line: String = match t[0] {
                 "impl" => { mode = t[1].parse().unwrap(); point = t[2].parse().unwrap(); "ok".into() }
-                "keys" => "ok".into(),
+                "keys" => { saw_keys = true; "ok".into() }
                 "setup" => {
                     let (ctype, outbound, hd, cd, txid, vout, cv) = parse_setup(&t).expect("setup");
+                    if t.len() >= 12 { mode = t[10].parse().unwrap(); point = t[11].parse().unwrap(); }
                     cx.sd = Some(SetupD { ctype, outbound, holder_delay: hd, cp_delay: cd, txid, vout, chan_value: cv, mode, point });
-                    cx.c = None; cx.base = None; cx.live = None; cx.p2 = None;
+                    cx.c = None; cx.base = None; cx.live = None; cx.p2 = None; cx.kept = None; cx.restart_next = false;
                     co.tags.insert(format!("type:{}", ctype));
                     co.tags.insert(format!("mode:{}", mode));
                     "ok".into()
                 }
+                "content" if !saw_keys => "no-keys".into(),
                 "content" => {
                     let c = parse_content(&t).expect("content");
                     let sd = cx.sd.clone().unwrap();
-                    cx.c = Some(c.clone()); cx.base = None; cx.live = None; cx.p2 = None;
+                    cx.c = Some(c.clone()); cx.base = None; cx.live = None; cx.p2 = None; cx.kept = None; cx.restart_next = false;
                     co.tags.insert(format!("htlcs:{}", match c.htlcs.len() { 0 => "0", 1..=5 => "1-5", 6..=15 => "6-15", _ => "16-30" }));
                     match cx.live() {
                         Err(e) => { co.tags.insert("content:no-channel".into()); format!("no-channel {}", e) }
@@ -665,9 +728,15 @@ impl Group for C04 {
                     let sd = cx.sd.clone().unwrap();
                     let c = cx.c.clone().unwrap();
                     cx.live = None;
-                    match fresh(&sd, &c) {
+                    cx.kept = None;
+                    let built = if cx.restart_next {
+                        co.tags.insert("p2:after-restart".into());
+                        fresh_base(&sd, &c).and_then(|l| restore(l, &sd, &c))
+                    } else { fresh(&sd, &c) };
+                    cx.restart_next = false;
+                    match built {
                         Err(_) => { cx.p2 = Some(None); co.tags.insert("p2:no-channel".into()); "reject".into() }
-                        Ok(live) => match real_p2(&live, &sd, &c) {
+                        Ok(live) => { let r2 = real_p2(&live, &sd, &c); match r2 {
                             P2Res::Ok(sig, hsigs) => {
                                 co.tags.insert("p2:accept".into());
                                 cx.p2 = Some(Some(sig));
@@ -689,6 +758,7 @@ impl Group for C04 {
                                     }
                                 }
                                 if !c.htlcs.is_empty() { saw_accept_htlc = true; }
+                                cx.kept = Some(live);
                                 format!("accept {}", hsigs.len())
                             }
                             P2Res::Err(m) => {
@@ -698,7 +768,63 @@ impl Group for C04 {
                                 "reject".into()
                             }
                             P2Res::Panic => { cx.p2 = Some(None); co.tags.insert("p2:panic".into()); "reject".into() }
-                        },
+                        } },
+                    }
+                }
+                "restart" => {
+                    let sd = cx.sd.clone().unwrap();
+                    match cx.c.clone() {
+                        None => { cx.restart_next = true; }
+                        Some(c) => {
+                            if let Some(k) = cx.kept.take() {
+                                // the very node that accepted phase 2, restored: `p1retry` re-signs on it
+                                co.tags.insert("restart:after-p2".into());
+                                cx.retry = match restore(k, &sd, &c) { Ok(l) => Some(l), Err(e) => { if std::env::var("C04_DEBUG").is_ok() { eprintln!("restore failed: {}", e); } co.tags.insert("restart:restore-failed".into()); None } };
+                            }
+                            if let Some(l) = cx.live.take() {
+                                co.tags.insert("restart:live".into());
+                                cx.live = restore(l, &sd, &c).ok();
+                            }
+                            // every channel built from now on goes through persist + restore before it signs
+                            cx.restart_next = true;
+                        }
+                    }
+                    "ok".into()
+                }
+                "p1retry" => {
+                    // implementation only: phase 1 on the canonical tx, on the restored node that already signed
+                    // this commitment in phase 2 (a retry).  The validator may refuse a retry for reasons of its
+                    // own (payment routing state); what it must not do is refuse the canonical tx as non-canonical
+                    // or return a different signature.
+                    match (cx.retry.take(), cx.base.as_ref(), cx.p2.clone()) {
+                        (Some(live), Some(b), Some(Some(s2))) => {
+                            let sd = cx.sd.clone().unwrap();
+                            let c = cx.c.clone().unwrap();
+                            let wsb: Vec<Vec<u8>> = b.ws.iter().map(|w| w.as_ref().map(|t| script_bytes(t, &b.kt)).unwrap_or_default()).collect();
+                            let tx: Transaction = deserialize(&b.bytes).expect("canonical bytes");
+                            match real_p1(&live, &sd, &c, &tx, &wsb) {
+                                P1Res::Ok(sig, _, _, canon_bytes) => {
+                                    co.tags.insert("p1retry:accept".into());
+                                    if sig != s2 {
+                                        co.violations.push(Violation { kind: "phase-sig-differs".into(), desc: "after a restart phase-1(canon) returns a signature different from the one phase 2 returned before the restart".into(), at: i });
+                                    }
+                                    if !verify_commit_sig(&b.kt, sd.chan_value, &canon_bytes, &sig) {
+                                        co.violations.push(Violation { kind: "sig-not-canonical".into(), desc: "after a restart the phase-1 signature does not verify against the canonical tx with the negotiated channel value".into(), at: i });
+                                    }
+                                    "accept".into()
+                                }
+                                P1Res::Err(m) => {
+                                    let cl = classify_err(&m);
+                                    co.tags.insert(format!("p1retry:reject:{}", cl));
+                                    if (cl == "mismatch" || cl == "decode") && sd.ctype != 'a' && well_formed(&sd, &c) {
+                                        co.violations.push(Violation { kind: "phase-disagree".into(), desc: format!("after a restart phase 1 refuses the canonical tx phase 2 signed: {}", m), at: i });
+                                    }
+                                    "reject".into()
+                                }
+                                P1Res::Panic => { co.tags.insert("p1retry:panic".into()); "reject".into() }
+                            }
+                        }
+                        (r, b, p) => { co.tags.insert(format!("p1retry:skip:{}{}{}", r.is_some() as u8, b.is_some() as u8, p.is_some() as u8)); "skip".into() }
                     }
                 }
                 "p1" => {
@@ -840,13 +966,16 @@ fn build_case(sd: &SetupD, c: &ContentD, rng: &mut Rng, tier: Tier) -> Option<Ve
     let live = fresh(sd, c).ok()?;
     let (kt, obs) = keys_only(&live, sd);
     let mut ops = vec![
-        format!("impl {} {}", sd.mode, sd.point),
-        format!("setup {} {} {} {} {} {} {} {} {}", sd.ctype, if sd.outbound { 1 } else { 0 }, sd.holder_delay, sd.cp_delay, sd.txid, sd.vout, sd.chan_value, obs, if sd.mode == 2 { 0 } else { 1 }),
+        format!("setup {} {} {} {} {} {} {} {} {} {} {}", sd.ctype, if sd.outbound { 1 } else { 0 }, sd.holder_delay, sd.cp_delay, sd.txid, sd.vout, sd.chan_value, obs, if sd.mode == 2 { 0 } else { 1 }, sd.mode, sd.point),
         keys_line(&kt),
         content_line(c),
     ];
     let base_pol = pol_of(sd, c);
+    // restarts (real persister + Node::restore_node): before the first signing request and/or between the phases
+    let (r1, r2, r3) = (rng.chance(1, 3), rng.chance(1, 3), rng.chance(1, 3));
+    if r1 { ops.push("restart".into()); }
     ops.push(format!("p2 {}", base_pol.s()));
+    if r2 { ops.push("restart".into()); ops.push("p1retry".into()); }
     ops.push(format!("p1 {} none", base_pol.s()));
     // the structured base transaction (from the real builder) to aim mutations at
     let (tx, _, _) = match ldk_tx(&live, sd, c) { Ok(x) => x, Err(_) => return Some(ops) };
@@ -911,7 +1040,9 @@ fn build_case(sd: &SetupD, c: &ContentD, rng: &mut Rng, tier: Tier) -> Option<Ve
     }
     let mut pol_cache: BTreeMap<(u64, u64), Pol> = BTreeMap::new();
     pol_cache.insert((c.to_cs, c.to_bc), base_pol);
-    for m in chosen {
+    let restart_at = if r3 && !chosen.is_empty() { Some(rng.below(chosen.len() as u64) as usize) } else { None };
+    for (mi, m) in chosen.into_iter().enumerate() {
+        if restart_at == Some(mi) { ops.push("restart".into()); }
         let toks: Vec<&str> = m.split_whitespace().collect();
         let pol = match mutate(&stx, &ws, &toks) {
             None => base_pol,
